@@ -40,6 +40,55 @@ impl CaseOut {
     pub fn inconclusive(&mut self, why: &str) {
         *self.inconclusive.entry(why.to_string()).or_default() += 1;
     }
+    pub fn to_json(&self) -> J {
+        json!({
+            "evaluations": self.evaluations,
+            "cells": self.cells,
+            "counters": self.counters,
+            "inconclusive": self.inconclusive,
+            "samples": self.samples,
+            "violations": self.violations.iter().map(|v| json!({"signature": v.signature, "summary": v.summary, "detail": v.detail, "replay": v.replay})).collect::<Vec<_>>(),
+        })
+    }
+
+    pub fn from_json(j: &J) -> CaseOut {
+        let mut o = CaseOut::default();
+        o.evaluations = j["evaluations"].as_u64().unwrap_or(0);
+        if let Some(a) = j["cells"].as_array() {
+            for c in a {
+                if let Some(s) = c.as_str() {
+                    o.cells.insert(s.to_string());
+                }
+            }
+        }
+        for (field, target) in [("counters", 0), ("inconclusive", 1)] {
+            if let Some(m) = j[field].as_object() {
+                for (k, v) in m {
+                    let n = v.as_u64().unwrap_or(0);
+                    if target == 0 {
+                        o.counters.insert(k.clone(), n);
+                    } else {
+                        o.inconclusive.insert(k.clone(), n);
+                    }
+                }
+            }
+        }
+        if let Some(a) = j["samples"].as_array() {
+            o.samples = a.clone();
+        }
+        if let Some(a) = j["violations"].as_array() {
+            for v in a {
+                o.violations.push(Violation {
+                    signature: v["signature"].as_str().unwrap_or("").to_string(),
+                    summary: v["summary"].as_str().unwrap_or("").to_string(),
+                    detail: v["detail"].clone(),
+                    replay: v["replay"].clone(),
+                });
+            }
+        }
+        o
+    }
+
     pub fn merge(&mut self, o: CaseOut) {
         self.evaluations += o.evaluations;
         self.cells.extend(o.cells);
